@@ -108,12 +108,33 @@ def case_vcf(run, i):
                 C.do_call(seg, arrays[-1], "threshold", 2, purity)
             except Exception:
                 pass
+    if i % 8 == 0 and truth["records"]:
+        # `cnvkit.py call -v VCF [-i ID] [-n ID] [--min-variant-depth N] [-z F]`: the selectors and filters must reach load_het_snps unchanged
+        import cnvlib.commands as K
+        from skgenome import tabio as TIO
+        from ..monitors import cli_plumb
+        sid, nid = sel()
+        mvd = int([20, 5, 60][i // 8 % 3])
+        zf = [None, 0.25, 0.1][i // 8 % 3]
+        cns, out = path + ".cns", path + ".call.cns"
+        with run.monitor_scope():
+            TIO.write(seg, cns)
+        argv = ["call", cns, "-v", path, "-o", out, "--min-variant-depth", str(mvd)] + (["-i", str(sid)] if isinstance(sid, str) else []) \
+            + (["-n", str(nid)] if isinstance(nid, str) else []) + (["-z", repr(zf)] if zf else [])
+        r = cli_plumb.check_cli(run, rt, K, "load_het_snps", argv,
+                                dict(vcf_fname=path, sample_id=sid if isinstance(sid, str) else None, normal_id=nid if isinstance(nid, str) else None,
+                                     min_variant_depth=mvd, zygosity_freq=zf), "call-vcf")
+        if r is not None:
+            cli_plumb.held(run, "call-vcf", "cli-call-vcf")
+        for f in (cns, out):
+            if os.path.exists(f):
+                os.remove(f)
     os.remove(path)
     run.end_case(fp=rt.fingerprint([truth["samples"], truth["pedigree"], [(r["chrom"], r["pos"], r["gt"]) for r in truth["records"][:50]]], 12),
                  nontrivial=len(truth["records"]) >= 2, sample={"samples": samples, "pedigree": truth["pedigree"], "records": truth["records"][:2]} if i % 61 == 0 else None)
 
 
 WORKLOADS = {"vcf": (_n, case_vcf)}
-_Q = {"tabio.read[vcf]|held": 1000, "vcfio._choose_samples|held": 1000, "cmdutil.load_het_snps|held": 300, "VariantArray.baf_by_ranges|held": 800,
+_Q = {"cli.call-vcf[plumbing]|held": 15, "tabio.read[vcf]|held": 1000, "vcfio._choose_samples|held": 1000, "cmdutil.load_het_snps|held": 300, "VariantArray.baf_by_ranges|held": 800,
       "VariantArray.mirrored_baf|held": 800, "VariantArray.tumor_boost|held": 100, "call.do_call[allelic]|held": 200}
 QUOTAS = {"quick": _Q, "thorough": _Q}
